@@ -396,6 +396,7 @@ class Run:
             R.ev("end", me, node, True)
             return r
 
+        rfg._verif_real = (real_threading, real_create_queue)      # for force_restore() after a run that had to be abandoned
         rfg.threading = Shim()
         rfg.create_queue = create_queue
         outcome = None
@@ -432,6 +433,13 @@ class Run:
                 t.sem.release()
         self.outcome = outcome
         return outcome
+
+
+def force_restore(rfg):
+    """undo the patching of an execute() that was abandoned (its thread is stuck in a primitive the scheduler does not replace)"""
+    real = getattr(rfg, "_verif_real", None)
+    if real is not None:
+        rfg.threading, rfg.create_queue = real
 
 
 # ------------------------------------------------------------------------------------------------
